@@ -8,4 +8,5 @@ mkdir -p work evidence replays
 ( cd coq && coq_makefile -f _CoqProject -o Makefile && timeout 3000 make -j16 ) > work/setup-coq.log 2>&1 || { tail -30 work/setup-coq.log; exit 1; }
 cp /repo/go.sum harness/go.sum
 ( cd harness && go test -c -tags verif -o ../work/harness.test . ) > work/setup-go.log 2>&1 || { tail -30 work/setup-go.log; exit 1; }
+( cd tools/scan && go build -o ../../work/scan . ) > work/setup-scan.log 2>&1 || { tail -30 work/setup-scan.log; exit 1; }
 echo setup ok
